@@ -35,3 +35,20 @@
 (assert (forall ((k Str) (p Str)) (! (=> (hasprefix k p) (>= (strlen k) (strlen p))) :pattern ((hasprefix k p)))))
 (assert (forall ((h Str) (t SL)) (! (>= (strlen (bjoin (scons h t) sep0)) (strlen h)) :pattern ((bjoin (scons h t) sep0)))))
 (assert (forall ((p Str)) (! (hasprefix p p) :pattern ((hasprefix p p)))))
+; ---- key layout as spec functions (each proved equal to the real builder by a code lemma, C16) ----
+; @strconst lit_v "v"
+; @strconst lit_e "e"
+; @strconst lit_s "s"
+; @strconst lit_d "d"
+; @strconst lit_g "g"
+(declare-const lit_v Str)
+(declare-const lit_e Str)
+(declare-const lit_s Str)
+(declare-const lit_d Str)
+(declare-const lit_g Str)
+(define-fun byte1 ((b Int)) Str (bset (bzero 1) 0 b))
+(define-fun vkeyOf ((g Str) (id Str)) Str (bjoin (scons lit_v (scons g (scons id snil))) sep0))
+(define-fun gkeyOf ((g Str)) Str (bjoin (scons lit_g (scons g snil)) sep0))
+(define-fun ekeyOf ((g Str) (id Str) (s Str) (d Str) (l Str) (t Int)) Str (bjoin (scons lit_e (scons g (scons id (scons s (scons d (scons l (scons (byte1 t) snil))))))) sep0))
+(define-fun skeyOf ((g Str) (s Str) (d Str) (id Str) (l Str) (t Int)) Str (bjoin (scons lit_s (scons g (scons s (scons d (scons id (scons l (scons (byte1 t) snil))))))) sep0))
+(define-fun dkeyOf ((g Str) (s Str) (d Str) (id Str) (l Str) (t Int)) Str (bjoin (scons lit_d (scons g (scons d (scons s (scons id (scons l (scons (byte1 t) snil))))))) sep0))
